@@ -279,7 +279,7 @@ def main(mod):
     for j in jobs:
         j.setdefault("module", mod.__name__)
     if a.only:
-        jobs = [j for j in jobs if a.only in j["label"]]
+        jobs = [j for j in jobs if any(p_ in j["label"] for p_ in a.only.split("|"))]
     elif not getattr(mod, "NO_SELFCHECK", False):
         jobs.append({"label": "selfcheck:fixedint-model", "special": "selfcheck_fixedint", "seed": seed, "cost": 1000, "module": "symx.selfcheck", "harness": "-"})
         jobs.append({"label": "selfcheck:symint-encodings", "special": "selfcheck_symint", "seed": seed, "cost": 999, "module": "symx.selfcheck", "harness": "-"})
